@@ -18,6 +18,9 @@ def gen_fasta_text(rng, n=None, ids=None):
     n = n or rng.randint(1, 5)
     out = []
     recs = []
+    if rng.random() < 0.1:
+        # text before the first header (comment / banner line, stray residues): it belongs to no record
+        out += [rng.choice(["; exported 2024-05-01\n", "# release 2024_02\n", "ACDEFGHIKR\n"]) for _ in range(rng.choice([1, 2]))]
     for i in range(n):
         pid = (ids[i] if ids else rng.choice([f"sp|P{i:03d}|NAME{i}_HUMAN", f"P{i}", f"tr|Q{i}|X{i}"]))
         desc = rng.choice(["", " some description OS=Homo sapiens GN=G%d PE=1 SV=1" % i, " x"])
@@ -415,8 +418,41 @@ def main_differential(r, n_cases):
     return n
 
 
+def arg_round_trip(r, n_cases):
+    """1-4 digestion parameter sets (values repeated at different positions, all equal, all distinct) turned into a command line by
+    digestion_params_list_to_arg_list (the pipeline and the GUI hand the sets to the next tool that way) and parsed back: the same sets,
+    in the same order."""
+    import argparse
+    from picked_group_fdr import digestion_params as dp
+    n = 0
+    for _ in range(n_cases):
+        rng = r.rng
+        k = rng.choice([1, 2, 3, 3, 4])
+        sets = [(rng.choice(["trypsin", "lys-c", "trypsin", "asp-n"]), rng.choice(["full", "full", "semi", "none"]), rng.choice([6, 7, 7]),
+                 rng.choice([30, 30, 60]), rng.choice([0, 2, 2]), rng.choice(["none", "KR", "KR"])) for _ in range(k)]
+        if rng.random() < 0.2:
+            sets = [sets[0]] * k
+        n += 1
+        try:
+            lst = [dp.DigestionParams(e, d, mn, mx, c, sp, False) for e, d, mn, mx, c, sp in sets]
+            argv = dp.digestion_params_list_to_arg_list(lst)
+            ap = argparse.ArgumentParser()
+            dp.add_digestion_arguments(ap)
+            back = dp.get_digestion_params_list(ap.parse_args(argv))
+            key = lambda p: (p.enzyme, p.digestion, p.min_length, p.max_length, p.cleavages, "".join(p.special_aas), p.methionine_cleavage)
+            problem = None if [key(p) for p in back] == [key(p) for p in lst] else \
+                f"{len(lst)} sets written as '{' '.join(argv)}' come back as {[key(p)[:5] for p in back]}"
+        except Exception as e:
+            problem = f"raised {type(e).__name__}: {e}"[:200]
+        if problem:
+            r.violation("property-failure", {"suite": "arg_round_trip", "parameter_sets": sets, "problem": problem}, True,
+                        f"digestion parameter sets through the command line: {problem}"[:400])
+            return n
+    return n
+
+
 def run(r: core.Runner):
-    r.traces = (r.traces or 0) + main_differential(r, core.tier_n(r.tier, 40, 600))
+    r.traces = (r.traces or 0) + main_differential(r, core.tier_n(r.tier, 40, 600)) + arg_round_trip(r, core.tier_n(r.tier, 200, 3000))
     r.assumptions += [
         "FASTA identifiers are distinct, headers are non-empty, identifiers contain no ';' (the tool's list separator)",
         "text decoding / universal newlines and the csv module are the runtime's; lines are obtained with Python's own open()",
